@@ -1129,7 +1129,8 @@ class MaterialIndexer(Indexer):
             except:
                 raise_material_indexer_index_error()
             chemical_index, kind = self._chemicals._get_index_and_kind(IDs)
-            index = (phase_index, chemical_index)
+            # All chemicals (ellipsis): same as indexing by the phase alone
+            index = phase_index if kind is None else (phase_index, chemical_index)
         return index, kind, 
     
     def __iter__(self):
